@@ -238,32 +238,8 @@ def run(ck):
     # a message that a sink hands on through a queued signal (SignalSink with a receiver in another thread) needs LogMessage to be a
     # registered meta-type whenever a logger exists - in synchronous mode the emitting thread is whichever thread logs
     ck.rule("C02-O8", "qRegisterMetaType<LogMessage> runs on every path of a constructor every logger goes through (OwnThreadHandler, SignalSink), not only when asynchronous mode is switched on")
-    regs = []
-    for f_ in F.fns.values():
-        if f_.body is None or not in_lib(f_.file):
-            continue
-        for n_ in f_.calls():
-            if "qRegisterMetaType" in (n_.get("callee") or "") and "LogMessage" in (n_.get("callee") or "") + (n_.get("sig") or "") + (n_.get("type") or "") + json_dumps_small(n_):
-                regs.append((f_, n_))
-    ok_reg = []
-    for f_, n_ in regs:
-        ctor = f_.d.get("kind") == "ctor" and (strip_tmpl(f_.cls or "") == OT or (f_.cls or "").endswith("SignalSink"))
-        g_ = Graph(f_)
-        site = g_.site_of(n_)
-        if site is None:
-            for a_ in f_.ancestors(n_):
-                if a_.get("k") == "decl" and g_.site_of(a_) is not None:
-                    site = g_.site_of(a_)
-                    break
-        if ctor and site is not None and g_.must_pass({site}):
-            ok_reg.append(f_)
-    if not regs:
-        ck.ob("C02-O8", "src/qtlogger", False, "LogMessage is never registered as a meta-type: SignalSink cannot deliver across threads", key="metatype|unregistered")
-    else:
-        f0, n0 = regs[0]
-        ck.ob("C02-O8", sitestr(f0, n0), bool(ok_reg), "LogMessage is registered as a meta-type in %s, on every path" % ok_reg[0].name.split("::")[-1] if ok_reg else
-              "LogMessage is registered as a meta-type only in %s: a synchronous logger whose SignalSink receiver lives in another thread drops the messages of every other thread "
-              "(Qt cannot queue the argument)" % sorted({f_.name.split("::")[-1] for f_, _ in regs}), key="metatype|registered-late")
+    from rules.oth import metatype_registered
+    metatype_registered(ck, F, "C02-O8")
     # installing never takes the logger out, not even for a moment: every qInstallMessageHandler reachable from
     # installMessageHandler() installs the logger's own entry function (a re-install that first restores the previous handler lets
     # messages logged by other threads in between go to that handler: they never enter the pipeline)
